@@ -127,6 +127,17 @@ def main(argv):
                         raise
                     reported.append(f)
                     ctx.disabled.add(v.kind)
+                except Exception as e:
+                    # Hypothesis found a failing case that did not fail again when replayed ("flaky"): all harness
+                    # randomness is a function of the drawn values, so the code under test behaved differently on the
+                    # same input - the failure that was observed on the real code is reported as it was recorded
+                    if type(e).__name__ in ("FlakyFailure", "Flaky", "FlakyReplay") and ctx.last_failure_kind in ctx.failures:
+                        f = dict(ctx.failures[ctx.last_failure_kind])
+                        f["detail"] = "[not reproduced on immediate replay: behaviour differs between identical calls] " + f["detail"]
+                        reported.append(f)
+                        ctx.disabled.add(ctx.last_failure_kind)
+                    else:
+                        raise
         res.update(evaluations=ctx.evaluations, classes=dict(ctx.classes), digests=sorted(ctx.digests),
                    samples=ctx.samples, excluded=dict(ctx.excluded), failures=reported)
     except BaseException as e:  # harness error: reported as such, never as a violation
